@@ -240,7 +240,8 @@ def hash_event(r, oid):
 # ---------------------------------------------------------------------------
 def random_criteria(rng):
     crit = []
-    for a in rng.sample(["a", "b"], rng.randint(1, 2)):
+    # now and then the EMPTY criteria dictionary: every item matches it (no attribute to disagree on)
+    for a in rng.sample(["a", "b"], rng.choice([0, 1, 1, 1, 2, 2, 2])):
         vals = rng.sample(["0", "1"], rng.randint(1, 2))
         crit.append([a, vals])
     return crit
